@@ -173,6 +173,16 @@ static void bfs_run(bfs_t *b)
     }
 }
 
+/* `./run replay` does not pass --tier: take it from the replay file so that the same bounds (hence the same frontier order) are rebuilt */
+static void bfs_replay_adopt_tier(void)
+{
+    if (!vf_replaying()) return;
+    FILE *f = fopen(vf_replay_file, "r"); if (!f) return;
+    char line[256];
+    while (fgets(line, sizeof line, f)) if (!strncmp(line, "tier ", 5)) vf_thorough = !strncmp(line + 5, "thorough", 8);
+    fclose(f);
+}
+
 /* append `"name": {...}` statistics to the evidence's extra_json */
 static void bfs_report(const bfs_t *b, const char *label)
 {
